@@ -1,6 +1,7 @@
 import SC.Properties.C12
 import SC.Properties.C06
 import SC.Proofs.SrcCut
+import SC.Proofs.SrcCutB
 /-!
 # C12 — source-level theorems (kept apart from `SC.Properties.C12`: see `Src/C04.lean`)
 -/
@@ -20,4 +21,27 @@ theorem source_Cut (s sep : Bytes) (h h' : Heap) (hls : s.length < 4611686018427
         (0 + (A.Index (GoSsa.cfg false) s sep).toNat) (Str.skipR (dec sep).length (s.drop (A.Index (GoSsa.cfg false) s sep).toNat)) := by
   have hr := C06.index_total (GoSsa.cfg false) s sep
   exact Str.Cut s sep 0 0 1 0 h h' _ ⟨hr.2.2.1, hr.2.2.2⟩ hls hCore
+/-- the same for **`bytcase.Cut`** (`Gen.Src.byt`), whose loop is written differently (a counter `n := utf8.RuneCount(sep)` that also stops
+    when `after` is exhausted, so it cannot panic): relative to `Index`, `before = s[:i]` and `after` = `s[i:]` with up to `RuneCount(sep)` code
+    points skipped, as sub-slices of `s`; `(s, nil, false)` when there is no match -/
+theorem source_Cut_bytcase (s sep : Bytes) (h h' : Heap) (hls : s.length < 4611686018427387904) (hlp : sep.length < 4611686018427387904)
+    (hCore : Ret Gen.Src.byt true byt_Index [.str s 0 0, .str sep 1 0] h [.int (A.Index (GoSsa.cfg true) s sep)] h') :
+    Ret Gen.Src.byt true byt_Cut [.str s 0 0, .str sep 1 0] h
+      (if A.Index (GoSsa.cfg true) s sep < 0 then [.str s 0 0, .nil, .bool false]
+       else [.str (s.take (A.Index (GoSsa.cfg true) s sep).toNat) 0 0,
+             .str (Byt.skipB (dec sep).length (s.drop (A.Index (GoSsa.cfg true) s sep).toNat)) 0
+               (0 + (A.Index (GoSsa.cfg true) s sep).toNat + ((s.drop (A.Index (GoSsa.cfg true) s sep).toNat).length -
+                 (Byt.skipB (dec sep).length (s.drop (A.Index (GoSsa.cfg true) s sep).toNat)).length)),
+             .bool true]) h' := by
+  have hr := C06.index_total (GoSsa.cfg true) s sep
+  exact Byt.Cut s sep 0 0 1 0 h h' _ ⟨hr.2.2.1, hr.2.2.2⟩ hls hlp hCore
+
+/-- where strcase's loop does not run out of `s`, the two loops leave the same `after` -/
+theorem source_Cut_loops_agree : ∀ (o : Nat) (s rest : Bytes), Str.skipR o s = some rest → Byt.skipB o s = rest
+  | 0, s, rest, h => by simp [Str.skipR] at h; simp [Byt.skipB, h]
+  | o+1, [], rest, h => by simp [Str.skipR] at h
+  | o+1, b :: r, rest, h => by
+    simp only [Str.skipR] at h
+    simp only [Byt.skipB]
+    exact source_Cut_loops_agree o _ rest h
 end C12
